@@ -60,7 +60,9 @@ ALL_CLAIMS = {
             "haystacks and span starts vs the anchored specification, DFAs with start kinds Both and Anchored",
             "SAT-decided equality with the anchored definition on every haystack up to N bytes"),
     "C10": ("3 C10", BMC + "relational harness: search on a span vs search of the copied sub-slice vs search with "
-            "arbitrary bytes outside the span, plus start=end+1; non-overlapping and overlapping steps, both anchorings",
+            "arbitrary bytes outside the span, plus start=end+1; non-overlapping and overlapping steps, both anchorings; prefilter-accelerated "
+            "automata and the packed searchers too (Rabin-Karp relationally; 128-bit Teddy on a span ending inside the haystack with a "
+            "symbolic window straddling span.end, vs the leftmost definition restricted to the span)",
             "SAT-decided: span search == shifted sub-slice search and is independent of bytes outside the span"),
     "C11": ("3 C11", BMC + "case-insensitive builds searched on fully symbolic haystacks vs the specification with "
             "A-Z/a-z folding only; exhaustive solver check of the builders' letter flip over all 256 byte values",
